@@ -35,7 +35,7 @@
 using namespace stir;
 
 static FILE *ops, *out, *orc;
-static long oracle_checks = 0, oracle_fails = 0, oracle_screened = 0, known_hits = 0;
+static long oracle_checks = 0, oracle_fails = 0, oracle_screened = 0, known_hits = 0, rows_nonempty = 0, rows_elements = 0;
 static std::set<std::string> known_emitted;
 static std::map<std::string, long> histo;
 
@@ -63,8 +63,10 @@ struct GeoSpec
   bool arc = false;
   int tof_bins = 0; // 0: non-TOF
   float tilt = 0.F;
-  float vx = 2.F, vy = 2.F;
-  int nx = 9, ny = 9;
+  float zoom = 1.F;  // x voxel size = central tangential sampling / zoom
+  float aniso = 1.F; // y voxel size = x voxel size * aniso
+  int nx = 0, ny = 0; // 0: odd size just covering all tangential positions
+  int dnx = 0, dny = 0; // added to the automatic size (negative: the FOV cuts off outer tangential positions)
   int m = 1;                  // z voxel size = axial sampling of segment 0 / m
   int extra_lo = 0, extra_hi = 0; // planes added below / above the planes needed to reach the outer ring centres
   int minz = 0;
@@ -81,7 +83,7 @@ struct Geo
   shared_ptr<VoxelsOnCartesianGrid<float>> image;
   const ProjDataInfoCylindrical* cyl = nullptr;
   int V, min_seg, max_seg, min_tang, max_tang, min_tof, max_tof, minz, maxz, miny, maxy, minx, maxx;
-  float vz;
+  float vz, vx, vy;
   std::string tokens;
   std::vector<Bin> bins;
 };
@@ -116,22 +118,27 @@ build_geo(const GeoSpec& sp, int id)
   const int planes = (sp.R - 1) * nppr + 1 + sp.extra_lo + sp.extra_hi;
   g->minz = sp.minz;
   g->maxz = sp.minz + planes - 1;
-  g->miny = -(sp.ny / 2);
-  g->maxy = g->miny + sp.ny - 1;
-  g->minx = -(sp.nx / 2);
-  g->maxx = g->minx + sp.nx - 1;
+  g->vx = p.get_sampling_in_s(Bin(0, 0, 0, 0)) / sp.zoom;
+  g->vy = g->vx * sp.aniso;
+  const float max_s = std::max(std::fabs(p.get_s(Bin(0, 0, 0, g->max_tang))), std::fabs(p.get_s(Bin(0, 0, 0, g->min_tang))));
+  const int nx = (sp.nx > 0 ? sp.nx : 2 * static_cast<int>(std::ceil(max_s / g->vx)) + 1) + sp.dnx;
+  const int ny = (sp.ny > 0 ? sp.ny : 2 * static_cast<int>(std::ceil(max_s / g->vy)) + 1) + sp.dny;
+  g->miny = -(ny / 2);
+  g->maxy = g->miny + ny - 1;
+  g->minx = -(nx / 2);
+  g->maxx = g->minx + nx - 1;
   // physical alignment: middle of the image + origin = middle of the scanner.  Extra planes below/above are
   // compensated by the origin as far as a whole number of planes allows (for an odd difference the ring centres
   // fall between two planes), plus the requested origin shift.
   const float origin_z = (sp.origin_planes + (sp.extra_hi - sp.extra_lo) / 2) * g->vz;
   g->image.reset(new VoxelsOnCartesianGrid<float>(IndexRange3D(g->minz, g->maxz, g->miny, g->maxy, g->minx, g->maxx),
                                                    CartesianCoordinate3D<float>(origin_z, 0.F, sp.origin_x),
-                                                   CartesianCoordinate3D<float>(g->vz, sp.vy, sp.vx)));
+                                                   CartesianCoordinate3D<float>(g->vz, g->vy, g->vx)));
   std::ostringstream t;
   const int max_abs_ax0 = std::max(-p.get_min_axial_pos_num(0), p.get_max_axial_pos_num(0));
   const int max_abs_tang = std::max(-g->min_tang, g->max_tang);
   const int max_abs_tof = std::max(-g->min_tof, g->max_tof);
-  t << g->V << " " << (std::fabs(sp.vx - sp.vy) <= 2.E-3F ? 1 : 0) << " " << (std::fabs(p.get_phi(Bin(0, 0, 0, 0))) <= 1.E-4F ? 1 : 0) << " " << (sp.tof_bins > 0 ? 1 : 0)
+  t << g->V << " " << (std::fabs(g->vx - g->vy) <= 2.E-3F ? 1 : 0) << " " << (std::fabs(p.get_phi(Bin(0, 0, 0, 0))) <= 1.E-4F ? 1 : 0) << " " << (sp.tof_bins > 0 ? 1 : 0)
     << " " << (sp.origin_x == 0.F ? 1 : 0) << " " << nppr << " " << g->min_seg << " " << g->max_seg << " " << g->minz << " " << g->maxz
     << " " << std::lround(4 * origin_z / g->vz) << " " << max_abs_ax0 << " " << max_abs_tang << " " << max_abs_tof;
   for (int s = g->min_seg; s <= g->max_seg; ++s)
@@ -173,7 +180,8 @@ spec_str(const GeoSpec& s)
 {
   std::ostringstream o;
   o << "N=" << s.N << " R=" << s.R << " span=" << s.span << " mash=" << s.mash << " ntang=" << s.ntang << " arc=" << s.arc
-    << " tof=" << s.tof_bins << " tilt=" << s.tilt << " vx=" << s.vx << " vy=" << s.vy << " nx=" << s.nx << " ny=" << s.ny << " m=" << s.m
+    << " tof=" << s.tof_bins << " tilt=" << s.tilt << " zoom=" << s.zoom << " aniso=" << s.aniso << " nx=" << s.nx << "+" << s.dnx << " ny=" << s.ny << "+"
+    << s.dny << " m=" << s.m
     << " extra=" << s.extra_lo << "," << s.extra_hi << " minz=" << s.minz << " originz=" << s.origin_planes << " originx=" << s.origin_x;
   return o.str();
 }
@@ -373,25 +381,84 @@ reference(const Geo& g, int ntl, bool restrict_fov)
   return *it->second;
 }
 
-// geometric screen (does not look at any computed row): the LOR of one of the traced rays is parallel to a grid
-// axis and lies on a voxel boundary, so that which of the two voxel columns it belongs to is a rounding tie
+// geometric screen (does not look at any computed row).  A bin is left out of the comparison with the directly
+// computed row when, for one of the rays traced for it,
+//  - the ray is parallel to a grid axis and runs along a voxel boundary (which of the two voxel columns it belongs
+//    to is a rounding tie), or
+//  - the ray is tangent to the cylindrical FOV (whether it is traced at all is a rounding tie), or
+//  - an end point of the ray on the border of the FOV has a coordinate on a voxel boundary (which voxel is the first /
+//    last one is a rounding tie).
+// The end points are computed as ProjMatrixByBinUsingRayTracing does, from the public geometry of the data and image.
 static bool
-screened(const Geo& g, const Bin& b, int ntl)
+near_half(double u)
 {
-  const float phi = g.pdi->get_phi(b);
-  const float s = g.pdi->get_s(b);
-  const double cphi = std::cos(static_cast<double>(phi)), sphi = std::sin(static_cast<double>(phi));
+  const double fr = u - std::floor(u);
+  return std::fabs(fr - .5) < 2.E-3;
+}
+
+static bool
+screened(const Geo& g, const Bin& b, int ntl, bool restrict_fov)
+{
+  const double phi = g.pdi->get_phi(b);
+  const double s = g.pdi->get_s(b);
+  const double cphi = std::cos(phi), sphi = std::sin(phi);
+  const double tantheta = g.pdi->get_tantheta(b);
+  const double costheta = 1 / std::sqrt(1 + tantheta * tantheta);
+  const double t = g.pdi->get_t(b);
+  const double samp_z = g.pdi->get_sampling_in_t(b) / costheta;
+  const int nlz = static_cast<int>(std::ceil(samp_z / g.vz - 1.E-3));
+  const double offset_in_z
+      = -samp_z / (2 * nlz) * (nlz - 1) - g.image->get_origin().z() + (g.maxz + g.minz) / 2. * g.vz;
+  const double fovrad = std::min(std::min(g.maxx, -g.minx) * static_cast<double>(g.vx), std::min(g.maxy, -g.miny) * static_cast<double>(g.vy));
   const bool along_y = std::fabs(sphi) < 1.E-4, along_x = std::fabs(cphi) < 1.E-4;
-  if (!along_x && !along_y)
-    return false;
   const double inc = g.pdi->get_sampling_in_s(b) / ntl;
   for (int k = 0; k < ntl; ++k)
     {
       const double sk = s - inc * (ntl - 1) / 2. + k * inc;
-      const double u = along_y ? sk * cphi / g.sp.vx : sk * sphi / g.sp.vy;
-      const double fr = u - std::floor(u);
-      if (std::fabs(fr - .5) < 2.E-3)
+      if (along_y && near_half(sk * cphi / g.vx))
         return true;
+      if (along_x && near_half(sk * sphi / g.vy))
+        return true;
+      double max_a, min_a;
+      if (restrict_fov)
+        {
+          if (std::fabs(std::fabs(sk) - fovrad) < 1.E-3 * g.vx)
+            return true;
+          if (std::fabs(sk) > fovrad)
+            continue;
+          max_a = std::sqrt(fovrad * fovrad - sk * sk);
+          min_a = -max_a;
+        }
+      else
+        {
+          if (std::fabs(cphi) < 1.E-3 || std::fabs(sphi) < 1.E-3)
+            {
+              if (std::fabs(std::fabs(sk) - fovrad) < 1.E-3 * g.vx)
+                return true;
+              if (fovrad < std::fabs(sk))
+                continue;
+              max_a = fovrad;
+              min_a = -fovrad;
+            }
+          else
+            {
+              const double sgs = sphi < 0 ? -1 : 1, sgc = cphi < 0 ? -1 : 1;
+              max_a = std::min((fovrad * sgs - sk * cphi) / sphi, (fovrad * sgc + sk * sphi) / cphi);
+              min_a = std::max((-fovrad * sgs - sk * cphi) / sphi, (-fovrad * sgc + sk * sphi) / cphi);
+              if (std::fabs(min_a - (max_a - 1.E-3 * g.vx)) < 1.E-3 * g.vx)
+                return true;
+              if (min_a > max_a - 1.E-3 * g.vx)
+                continue;
+            }
+        }
+      for (int e = 0; e < 2; ++e)
+        {
+          const double a = e == 0 ? max_a : min_a;
+          if (near_half((sk * cphi + a * sphi) / g.vx) || near_half((sk * sphi - a * cphi) / g.vy))
+            return true;
+          if (tantheta != 0 && near_half((t / costheta + offset_in_z - a * tantheta) / g.vz))
+            return true;
+        }
     }
   return false;
 }
@@ -401,6 +468,9 @@ static void
 oracle_row(const Geo& g, const MatrixCfg& c, const char* mode, const Bin& b, const SRow& r, const char* where)
 {
   ++oracle_checks;
+  if (!r.e.empty())
+    ++rows_nonempty;
+  rows_elements += static_cast<long>(r.e.size());
   std::ostringstream ctx;
   ctx << where << " flags=" << c.flags << " mode=" << mode << " rays=" << c.ntl << " cylFOV=" << c.restrict_fov << " geo=[" << spec_str(g.sp)
       << "] bin=" << bin_str(b);
@@ -451,7 +521,7 @@ oracle_row(const Geo& g, const MatrixCfg& c, const char* mode, const Bin& b, con
         }
     }
   // same row as computed directly, up to the library's own tolerance
-  if (screened(g, b, c.ntl))
+  if (screened(g, b, c.ntl, c.restrict_fov))
     {
       ++oracle_screened;
       return;
@@ -600,35 +670,56 @@ history(const std::vector<shared_ptr<Geo>>& geos, vh::Rng& rng, int num_events)
       }
   };
   refill();
+  std::vector<Bin> recent; // the last requested bins: asked again right after parameter / geometry changes
+  auto in_range = [&](const Bin& b) {
+    return b.segment_num() >= g->min_seg && b.segment_num() <= g->max_seg && b.view_num() >= 0 && b.view_num() < g->V
+           && b.axial_pos_num() >= g->pdi->get_min_axial_pos_num(b.segment_num())
+           && b.axial_pos_num() <= g->pdi->get_max_axial_pos_num(b.segment_num()) && b.tangential_pos_num() >= g->min_tang
+           && b.tangential_pos_num() <= g->max_tang && b.timing_pos_num() >= g->min_tof && b.timing_pos_num() <= g->max_tof;
+  };
+  auto do_get = [&](const Bin& b) -> bool {
+    SRow r;
+    try
+      {
+        r = fetch(*pm, b);
+      }
+    catch (...)
+      {
+        std::fprintf(ops, "pget %s\n", bin_str(b).c_str());
+        std::fprintf(out, "err\n");
+        oracle_fail("get_proj_matrix_elems_for_one_bin threw for bin " + bin_str(b) + " geo=[" + spec_str(g->sp) + "]");
+        return false;
+      }
+    Bin b0 = b;
+    pm->get_symmetries_ptr()->find_basic_bin(b0);
+    std::ostringstream key;
+    key << g->id << "/" << c.ntl << "/" << c.restrict_fov << "/" << bin_str(b0);
+    std::string data;
+    if (data_sent.insert(key.str()).second)
+      data = " data " + bin_str(b0) + " " + row_str(reference(*g, c.ntl, c.restrict_fov).row(b0));
+    std::fprintf(ops, "pget %s%s\n", bin_str(b).c_str(), data.c_str());
+    std::fprintf(out, "row %s %s\n", bin_str(r.bin).c_str(), row_str(r).c_str());
+    oracle_row(*g, c, mode, b, r, "history");
+    histo[std::string("B:get-") + mode]++;
+    recent.push_back(b);
+    if (recent.size() > 8)
+      recent.erase(recent.begin());
+    return true;
+  };
+  auto repeat_recent = [&]() -> bool {
+    const std::vector<Bin> again = recent;
+    for (const Bin& b : again)
+      if (in_range(b) && !do_get(b))
+        return false;
+    return true;
+  };
   for (int ev = 0; ev < num_events; ++ev)
     {
       const int what = rng.range(0, 99);
       if (what < 82)
         {
-          const Bin b = pool[rng.range(0, static_cast<int>(pool.size()) - 1)];
-          SRow r;
-          try
-            {
-              r = fetch(*pm, b);
-            }
-          catch (...)
-            {
-              std::fprintf(ops, "pget %s\n", bin_str(b).c_str());
-              std::fprintf(out, "err\n");
-              oracle_fail("get_proj_matrix_elems_for_one_bin threw for bin " + bin_str(b) + " geo=[" + g->tokens + "]");
-              return;
-            }
-          Bin b0 = b;
-          pm->get_symmetries_ptr()->find_basic_bin(b0);
-          std::ostringstream key;
-          key << g->id << "/" << c.ntl << "/" << c.restrict_fov << "/" << bin_str(b0);
-          std::string data;
-          if (data_sent.insert(key.str()).second)
-            data = " data " + bin_str(b0) + " " + row_str(reference(*g, c.ntl, c.restrict_fov).row(b0));
-          std::fprintf(ops, "pget %s%s\n", bin_str(b).c_str(), data.c_str());
-          std::fprintf(out, "row %s %s\n", bin_str(r.bin).c_str(), row_str(r).c_str());
-          oracle_row(*g, c, mode, b, r, "history");
-          histo[std::string("B:get-") + mode]++;
+          if (!do_get(pool[rng.range(0, static_cast<int>(pool.size()) - 1)]))
+            return;
         }
       else if (what < 86)
         {
@@ -662,6 +753,8 @@ history(const std::vector<shared_ptr<Geo>>& geos, vh::Rng& rng, int num_events)
           do_pset();
           if (!do_setup())
             return;
+          if (!repeat_recent())
+            return;
           histo["B:pset+setup"]++;
         }
       else
@@ -669,6 +762,8 @@ history(const std::vector<shared_ptr<Geo>>& geos, vh::Rng& rng, int num_events)
           // set up for another (or the same) geometry
           g = geos[rng.range(0, static_cast<int>(geos.size()) - 1)].get();
           if (!do_setup())
+            return;
+          if (!repeat_recent())
             return;
           refill();
           histo["B:setup-geo"]++;
@@ -701,7 +796,7 @@ section_E(const Geo& g1, const Geo& g2, vh::Rng& rng)
       const long f0 = oracle_fails;
       const SRow r = fetch(pm, g2.bins[i]);
       ++oracle_checks;
-      if (screened(g2, g2.bins[i], c.ntl))
+      if (screened(g2, g2.bins[i], c.ntl, c.restrict_fov))
         continue;
       const SRow& ref = reference(g2, c.ntl, c.restrict_fov).row(g2.bins[i]);
       bool same = r.e.size() == ref.e.size();
@@ -802,12 +897,11 @@ random_spec(vh::Rng& rng, bool small)
   s.arc = rng.range(0, 3) == 0;
   s.tof_bins = 0;
   const int vk = rng.range(0, 5);
-  s.vx = s.vy = vk == 0 ? 1.F : (vk == 1 ? 4.F : (vk == 2 ? 1.5F : 2.F));
+  s.zoom = vk == 0 ? 2.F : (vk == 1 ? .5F : (vk == 2 ? 1.3F : 1.F));
   if (rng.range(0, 4) == 0)
-    s.vy = s.vx * 1.25F; // anisotropic: no 90 degree symmetry
-  const int half = std::max(2, static_cast<int>((s.ntang / 2) * 2.F / s.vx));
-  s.nx = 2 * half + 1 - rng.range(0, 1);
-  s.ny = rng.range(0, 3) == 0 ? s.nx + 1 - 2 * (s.nx % 2) : s.nx;
+    s.aniso = 1.25F; // anisotropic: no 90 degree symmetry
+  s.dnx = -rng.range(0, 2); // even sizes, FOV cutting the outer tangential positions
+  s.dny = rng.range(0, 3) == 0 ? s.dnx - 1 : s.dnx;
   s.m = rng.range(1, 2) + (rng.range(0, 5) == 0 ? 1 : 0);
   s.extra_lo = rng.range(0, 2);
   s.extra_hi = rng.range(0, 2);
@@ -839,7 +933,8 @@ main(int argc, char** argv)
     b.R = 3;
     b.span = 3;
     b.ntang = 5;
-    b.nx = b.ny = 6;
+    b.dnx = b.dny = -1; // even size
+    b.zoom = 1.5F;
     b.m = 2;
     b.extra_lo = 1;
     b.extra_hi = 2;
@@ -851,7 +946,6 @@ main(int argc, char** argv)
     c.R = 2;
     c.max_delta = 1;
     c.ntang = 3;
-    c.nx = c.ny = 5;
     c.tof_bins = 5;
     full.push_back(build_geo(c, next_id++));
   }
@@ -871,9 +965,9 @@ main(int argc, char** argv)
     c.N = 10;
     c.ntang = 4;
     c.arc = true;
-    c.vy = 2.5F;
-    c.nx = 5;
-    c.ny = 4;
+    c.aniso = 1.25F;
+    c.zoom = .5F; // arc-corrected, voxel twice the bin size: odd tangential positions run along voxel boundaries at 0 and 90 degrees
+    c.dny = -1;
     sampled.push_back(build_geo(c, next_id++));
     GeoSpec d; // view mashing to 4 views, even span-like axial sampling with 4 rings
     d.N = 16;
@@ -917,7 +1011,7 @@ main(int argc, char** argv)
     GeoSpec a;
     group1.push_back(full[0]);
     GeoSpec a3 = a; // same data, same image size, other voxel size
-    a3.vx = a3.vy = 1.5F;
+    a3.zoom = 1.5F;
     group1.push_back(build_geo(a3, next_id++));
     GeoSpec a4 = a; // same data, same image size, z origin shifted by one plane (two more planes)
     a4.extra_lo = 1;
@@ -936,7 +1030,7 @@ main(int argc, char** argv)
     group2.push_back(sampled[3]);
     group3.push_back(full[2]); // TOF
     GeoSpec c2 = full[2]->sp;
-    c2.vx = c2.vy = 2.5F;
+    c2.zoom = .8F;
     group3.push_back(build_geo(c2, next_id++));
     std::vector<shared_ptr<Geo>> bad = { sampled[4] };
     for (auto* grp : { &group1, &group2, &group3, &bad })
@@ -964,7 +1058,7 @@ main(int argc, char** argv)
   {
     GeoSpec a;
     GeoSpec a2 = a; // same data, voxel size and origin; larger image in x and y
-    a2.nx = a2.ny = 11;
+    a2.dnx = a2.dny = 2;
     GeoSpec a7 = a; // ... one more plane at each end
     a7.extra_lo = a7.extra_hi = 1;
     shared_ptr<Geo> g2 = build_geo(a2, next_id++), g7 = build_geo(a7, next_id++);
@@ -976,7 +1070,8 @@ main(int argc, char** argv)
   // ---- section D
   section_D(rng, thorough ? 3000 : 400);
 
-  std::fprintf(orc, "ORACLE-DONE checks=%ld fails=%ld screened=%ld known=%ld\n", oracle_checks, oracle_fails, oracle_screened, known_hits);
+  std::fprintf(orc, "ORACLE-DONE checks=%ld fails=%ld screened=%ld known=%ld nonempty_rows=%ld elements=%ld\n", oracle_checks, oracle_fails,
+               oracle_screened, known_hits, rows_nonempty, rows_elements);
   for (auto& h : histo)
     std::fprintf(orc, "HISTO %s %ld\n", h.first.c_str(), h.second);
   std::fclose(ops);
